@@ -5,6 +5,7 @@ use vstd::prelude::*;
 use std::collections::VecDeque;
 use std::fs::File;
 use vstd::std_specs::iter::IteratorSpec;
+use crate::packet::{Packet, TransferOption, OptionType, ErrorCode, Opcode};
 
 verus! {
 
@@ -24,6 +25,31 @@ pub struct ExFile(File);
 #[verifier::external_type_specification]
 #[verifier::external_body]
 pub struct ExIoError(std::io::Error);
+
+#[verifier::external_type_specification]
+#[verifier::external_body]
+pub struct ExSocketAddr(std::net::SocketAddr);
+
+#[verifier::external_type_specification]
+#[verifier::external_body]
+pub struct ExUdpSocket(std::net::UdpSocket);
+
+#[verifier::external_type_specification]
+#[verifier::external_body]
+pub struct ExPathBuf(std::path::PathBuf);
+
+#[verifier::external_type_specification]
+#[verifier::external_body]
+pub struct ExPath(std::path::Path);
+
+#[verifier::external_type_specification]
+#[verifier::external_body]
+pub struct ExInstant(std::time::Instant);
+
+#[verifier::external_type_specification]
+#[verifier::external_body]
+#[verifier::reject_recursive_types(T)]
+pub struct ExJoinHandle<T>(std::thread::JoinHandle<T>);
 
 /// File model.  `file_data` is the content, `file_pos` the cursor of this handle.
 pub uninterp spec fn file_data(f: File) -> Seq<u8>;
@@ -68,6 +94,13 @@ pub assume_specification<T, A: core::alloc::Allocator, R: core::ops::RangeBounds
     requires 0 <= rb_start(range) <= rb_end(range) <= old(v)@.len(),
     ensures final(v)@ == old(v)@.subrange(0, rb_start(range)) + old(v)@.subrange(rb_end(range), old(v)@.len() as int);
 
+/// ASSUMPTION: `to_vec` copies the slice.  Stated as equality of views, which is exact for `Copy`
+/// element types; the crate calls it only on `[u8]` and `[TransferOption]` (both `Copy`).
+pub assume_specification<T: Clone>[ <[T]>::to_vec ](s: &[T]) -> (r: Vec<T>)
+    ensures r@ == s@;
+
+pub assume_specification[ std::thread::sleep ](_0: std::time::Duration);
+
 pub assume_specification<T>[ std::mem::drop ](_0: T) where T: std::marker::Destruct;
 
 /// `std::io::Write`: only `write_all` is given a meaning, through the uninterpreted relation
@@ -105,6 +138,141 @@ pub assume_specification<'a, T, A: core::alloc::Allocator>[ <&'a VecDeque<T, A> 
 // =============================================================================================
 // PART 2 -- pure specification vocabulary and proved lemmas
 // =============================================================================================
+
+// ---- packets and traces -----------------------------------------------------------------------
+
+/// mathematical view of a `Packet` (Vec / String replaced by sequences)
+pub enum PktV {
+    Rrq { filename: Seq<char>, mode: Seq<char>, options: Seq<TransferOption> },
+    Wrq { filename: Seq<char>, mode: Seq<char>, options: Seq<TransferOption> },
+    Data { block_num: u16, data: Seq<u8> },
+    Ack(u16),
+    Error { code: ErrorCode, msg: Seq<char> },
+    Oack(Seq<TransferOption>),
+}
+
+pub open spec fn pkt_view(p: Packet) -> PktV {
+    match p {
+        Packet::Rrq { filename, mode, options } => PktV::Rrq { filename: filename@, mode: mode@, options: options@ },
+        Packet::Wrq { filename, mode, options } => PktV::Wrq { filename: filename@, mode: mode@, options: options@ },
+        Packet::Data { block_num, data } => PktV::Data { block_num, data: data@ },
+        Packet::Ack(n) => PktV::Ack(n),
+        Packet::Error { code, msg } => PktV::Error { code, msg: msg@ },
+        Packet::Oack(options) => PktV::Oack(options@),
+    }
+}
+
+/// what a receive attempt produced: `None` = time-out, I/O error or undecodable datagram
+pub open spec fn recv_view(r: Result<Packet, Box<dyn std::error::Error>>) -> Option<PktV> {
+    match r {
+        Ok(p) => Some(pkt_view(p)),
+        Err(_) => None,
+    }
+}
+
+/// Ghost record of one transfer (one `Worker` run).  It is threaded through every function that can
+/// emit; the weaver pushes onto `ev` in front of every call of a leaf `Socket::send` and updates the
+/// receive fields behind every receive call.
+pub tracked struct Trace {
+    /// every datagram handed to the socket, in order
+    pub ghost ev: Seq<PktV>,
+    /// number of emissions that have been justified (granted by the contract) but not made yet
+    pub ghost credit: nat,
+    /// result of the most recent receive attempt
+    pub ghost last: Option<PktV>,
+    /// consecutive receive attempts that brought nothing usable (drives the retry bound)
+    pub ghost fails: nat,
+    /// receiver only: payloads accepted so far (in-sequence DATA blocks, each once)
+    pub ghost accepted: Seq<Seq<u8>>,
+    /// receiver only: an accepted block was shorter than the block size (transfer complete)
+    pub ghost fin: bool,
+}
+
+/// n copies of x
+pub open spec fn rep(x: PktV, n: nat) -> Seq<PktV> { Seq::new(n, |i: int| x) }
+
+/// block number on the wire of the block with true (unbounded) index j
+pub open spec fn wire(j: int) -> u16 { (j % 65536) as u16 }
+
+/// the datagrams one transmission of a window consists of: piece i carries number wire(base + i), each `n` times
+pub open spec fn window_events(elems: Seq<Seq<u8>>, bn: u16, n: nat) -> Seq<PktV>
+    decreases elems.len()
+{
+    if elems.len() == 0 { Seq::<PktV>::empty() }
+    else { window_events(elems.drop_last(), bn, n) + rep(data_ev(bn, elems.len() - 1, elems.last()), n) }
+}
+
+pub open spec fn data_ev(bn: u16, i: int, d: Seq<u8>) -> PktV { PktV::Data { block_num: wire(bn + i), data: d } }
+
+pub proof fn lemma_window_events_step(s: Seq<Seq<u8>>, bn: u16, n: nat, i: int)
+    requires 0 <= i < s.len(),
+    ensures window_events(s.subrange(0, i + 1), bn, n) == window_events(s.subrange(0, i), bn, n) + rep(data_ev(bn, i, s[i]), n),
+{
+    assert(s.subrange(0, i + 1).drop_last() =~= s.subrange(0, i));
+}
+
+pub open spec fn is_prefix<A>(p: Seq<A>, s: Seq<A>) -> bool { p.len() <= s.len() && p == s.subrange(0, p.len() as int) }
+
+pub proof fn lemma_prefix_ext<A>(p: Seq<A>, s: Seq<A>, t: Seq<A>)
+    requires is_prefix(p, s),
+    ensures is_prefix(p, s + t),
+{
+    assert((s + t).subrange(0, p.len() as int) =~= s.subrange(0, p.len() as int));
+}
+
+pub proof fn lemma_window_events_prefix(s: Seq<Seq<u8>>, bn: u16, n: nat, i: int)
+    requires 0 <= i <= s.len(),
+    ensures is_prefix(window_events(s.subrange(0, i), bn, n), window_events(s, bn, n)),
+    decreases s.len() - i,
+{
+    if i == s.len() {
+        assert(s.subrange(0, i) =~= s);
+        assert(window_events(s, bn, n).subrange(0, window_events(s, bn, n).len() as int) =~= window_events(s, bn, n));
+    } else {
+        lemma_window_events_prefix(s, bn, n, i + 1);
+        lemma_window_events_step(s, bn, n, i);
+        let a = window_events(s.subrange(0, i), bn, n);
+        let b = window_events(s.subrange(0, i + 1), bn, n);
+        let c = window_events(s, bn, n);
+        assert(b.subrange(0, a.len() as int) =~= a);
+        assert(c.subrange(0, a.len() as int) =~= c.subrange(0, b.len() as int).subrange(0, a.len() as int));
+    }
+}
+
+/// a partially emitted window (i full pieces and k copies of piece i) is a prefix of the whole emission
+pub proof fn lemma_window_events_partial(s: Seq<Seq<u8>>, bn: u16, n: nat, i: int, k: nat)
+    requires 0 <= i < s.len(), k <= n,
+    ensures is_prefix(window_events(s.subrange(0, i), bn, n) + rep(data_ev(bn, i, s[i]), k), window_events(s, bn, n)),
+{
+    lemma_window_events_step(s, bn, n, i);
+    lemma_window_events_prefix(s, bn, n, i + 1);
+    let a = window_events(s.subrange(0, i), bn, n);
+    let x = data_ev(bn, i, s[i]);
+    let b = window_events(s.subrange(0, i + 1), bn, n);
+    let c = window_events(s, bn, n);
+    assert(b == a + rep(x, n));
+    assert((a + rep(x, n)).subrange(0, (a.len() + k) as int) =~= a + rep(x, k));
+    assert(c.subrange(0, (a.len() + k) as int) =~= c.subrange(0, b.len() as int).subrange(0, (a.len() + k) as int));
+}
+
+pub proof fn lemma_rep_prefix(x: PktV, n: nat, p: Seq<PktV>)
+    requires is_prefix(p, rep(x, n)),
+    ensures p == rep(x, p.len()), p.len() <= n,
+{
+    assert(p =~= rep(x, p.len()));
+}
+
+pub proof fn lemma_mul_step(i: nat, n: nat)
+    ensures (i + 1) * n == i * n + n, 0 * n == 0,
+{
+    assert((i + 1) * n == i * n + n) by(nonlinear_arith);
+}
+
+pub proof fn lemma_wire_succ(bn: u16, i: int)
+    requires i >= 0,
+    ensures wire(bn + i + 1) == wire(wire(bn + i) + 1), wire(bn + 0) == bn,
+{
+}
 
 /// number of blocks a transfer of `len` bytes has with block size `cs` (the last one is short, possibly empty)
 pub open spec fn nblocks(len: nat, cs: nat) -> nat { len / cs + 1 }
